@@ -5,5 +5,7 @@ import (
 	_ "verif/internal/props/c01"
 	_ "verif/internal/props/c02"
 	_ "verif/internal/props/c05"
+	_ "verif/internal/props/c15"
 	_ "verif/internal/props/c18"
+	_ "verif/internal/props/c20"
 )
